@@ -339,6 +339,16 @@ def build(v, classes):
     return bpgen.to_py(v, classes)
 
 
+_BYSTANDER = []
+
+
+def _bystander():
+    """a message type without any field"""
+    if not _BYSTANDER:
+        _BYSTANDER.append(bpgen.build_bp([bpgen.M("Bystander", [])])[0])
+    return _BYSTANDER[0]
+
+
 def oracle(chk, b, v, casings=CASINGS):
     """the English property on the real code for one value; returns list of (casing, form, m2 or exception)"""
     ci = v[1]
@@ -365,6 +375,14 @@ def oracle(chk, b, v, casings=CASINGS):
         except Exception as e:
             record(chk, "not-json-serialisable", inp, "%r: %r" % (e, d))
             text = None
+        # the same document is first read by OTHER message types of the process (a field-less one and the other
+        # classes of the schema): unknown keys are legally ignored there, and that must not teach the runtime
+        # anything about what the keys mean for THIS type
+        for other in [_bystander()] + [c for j, c in enumerate(b.classes) if j != ci][:2]:
+            try:
+                other().from_dict(copy.deepcopy(d))
+            except Exception:
+                pass
         forms = [("dict-instance", lambda: cls().from_dict(copy.deepcopy(d))),
                  ("dict-class", lambda: cls.from_dict(copy.deepcopy(d)))]
         if text is not None:
